@@ -306,9 +306,43 @@ type caseState struct {
 	present map[tup]bool
 
 	markerIdx map[keys.Key]rec.V
+	lost      bool
 }
 
 func (cs *caseState) now() int64 { return int64(time.Since(cs.t0)) }
+
+// waitCtrl waits for the controller's goroutines.  A run the driver does not know about (possible only
+// after a run gave up on its one-second ReadChanges timeout while the machine stalled) is let through
+// and the case is marked lost, so that nothing can block forever.
+func (cs *caseState) waitCtrl() {
+	done := make(chan struct{})
+	go func() { cs.ctrlWG.Wait(); close(done) }()
+	for {
+		select {
+		case <-done:
+			return
+		case rg := <-cs.gate.arrive:
+			close(rg.g1)
+			close(rg.g2)
+			cs.lost = true
+		}
+	}
+}
+
+// reap: the run we hold has given up (timeout): release its reader goroutine
+func (cs *caseState) reap() bool {
+	if cs.phase == 0 || cs.isInflight() {
+		return false
+	}
+	if cs.phase == 1 {
+		close(cs.pending.g1)
+	}
+	close(cs.pending.g2)
+	cs.phase = 0
+	cs.pending = nil
+	cs.waitCtrl()
+	return true
+}
 
 func (cs *caseState) isInflight() bool {
 	_, ok := cs.inflight.Load(cs.store)
@@ -460,6 +494,13 @@ func runCase(d caseDesc) (res caseResult) {
 		tb := cs.now()
 		did := cs.phase == 2
 		clSet, clN, storeSet := false, 0, false
+		clTTL, storeTTL, markTTL := int64(0), int64(0), int64(0)
+		normTTL := func(t time.Duration) int64 {
+			if t >= 365*24*time.Hour { // InMemoryLRUCache.Set truncates to one year
+				return int64(365 * 24 * time.Hour)
+			}
+			return int64(t)
+		}
 		var marks []rec.V
 		ta := tb
 		if did {
@@ -468,7 +509,7 @@ func runCase(d caseDesc) (res caseResult) {
 				res.discard = "run_held_too_long"
 			}
 			close(cs.pending.g2)
-			cs.ctrlWG.Wait()
+			cs.waitCtrl()
 			ta = cs.now()
 			cs.phase = 0
 			cs.pending = nil
@@ -476,6 +517,7 @@ func runCase(d caseDesc) (res caseResult) {
 				switch v := ev.val.(type) {
 				case *storage.ChangelogCacheEntry:
 					clSet = true
+					clTTL = normTTL(ev.ttl)
 					lm := v.LastModified.UnixNano()
 					for _, ts := range cs.chgTS {
 						if ts <= lm {
@@ -485,13 +527,24 @@ func runCase(d caseDesc) (res caseResult) {
 				case *storage.InvalidEntityCacheEntry:
 					if ev.key == storage.InvalidIteratorCacheKey(cs.store) {
 						storeSet = true
+						storeTTL = normTTL(ev.ttl)
 						continue
+					}
+					if markTTL == 0 || markTTL == normTTL(ev.ttl) {
+						markTTL = normTTL(ev.ttl)
+					} else {
+						markTTL = -1
 					}
 					marks = append(marks, cs.markerV(ev.key))
 				}
 			}
 			if cs.isInflight() {
 				res.discard = "inflight_after_wait"
+			}
+			if !clSet && !storeSet && len(marks) == 0 {
+				// every completed run Sets the changelog entry or (ReadChanges error) the store-wide marker:
+				// this one gave up on its ReadChanges timeout
+				res.discard = "run_timed_out"
 			}
 			switch {
 			case !clSet && storeSet:
@@ -507,21 +560,30 @@ func runCase(d caseDesc) (res caseResult) {
 			ta = cs.now()
 		}
 		times = append(times, opTimes{tb, ta})
-		ops = append(ops, rec.L(rec.I(5), rec.I64(tb), rec.I64(ta), rec.Bool(did), rec.Bool(clSet), rec.I(clN), rec.Bool(storeSet), rec.L(marks...), rec.I(cs.readLen)))
+		ops = append(ops, rec.L(rec.I(5), rec.I64(tb), rec.I64(ta), rec.Bool(did), rec.Bool(clSet), rec.I(clN), rec.Bool(storeSet), rec.L(marks...), rec.I(cs.readLen), rec.I64(clTTL), rec.I64(storeTTL), rec.I64(markTTL)))
 	}
 
 	exec := func(o opDesc) {
-		// a run must not be held for a second: force it through
-		if cs.phase != 0 && cs.now()-cs.spawnAt > int64(500*time.Millisecond) && o.K != "rd" && o.K != "f" {
+		target += int64(o.Slot) * slotNS
+		// a run must not be held for a second (ReadChanges has a 1 s timeout after which the run gives up
+		// silently): force it through BEFORE sleeping when the operation would come too late
+		when := target
+		if n := cs.now(); n > when {
+			when = n
+		}
+		if cs.phase != 0 && when-cs.spawnAt > int64(450*time.Millisecond) {
 			if cs.phase == 1 {
 				doRead()
 			}
 			doFinish()
 			res.stats["forced_finish"]++
 		}
-		target += int64(o.Slot) * slotNS
 		if w := target - cs.now(); w > 0 {
 			time.Sleep(time.Duration(w))
+		}
+		if cs.reap() {
+			res.discard = "run_timed_out"
+			return
 		}
 		switch o.K {
 		case "w":
@@ -661,6 +723,9 @@ func runCase(d caseDesc) (res caseResult) {
 		}
 	}
 	for _, o := range d.Ops {
+		if res.discard != "" || cs.lost {
+			break
+		}
 		exec(o)
 	}
 	// let a run that is still in flight terminate
@@ -669,6 +734,10 @@ func runCase(d caseDesc) (res caseResult) {
 	}
 	if cs.phase == 2 {
 		doFinish()
+	}
+	cs.waitCtrl()
+	if cs.lost && res.discard == "" {
+		res.discard = "lost_run"
 	}
 
 	// guard band: no two operations may lie (TTL +- guard) apart, for any TTL seen in this case
@@ -1104,7 +1173,18 @@ func main() {
 		go func() {
 			defer wg.Done()
 			for i := range next {
+				done := make(chan struct{})
+				go func() {
+					select {
+					case <-done:
+					case <-time.After(60 * time.Second):
+						b, _ := json.Marshal(descs[i])
+						fmt.Fprintf(os.Stderr, "c11: case stuck for 60 s: %s\n", b)
+						os.Exit(3)
+					}
+				}()
 				results[i] = runCase(descs[i])
+				close(done)
 			}
 		}()
 	}
